@@ -99,7 +99,7 @@ def main():
         try:
             for c in checks:
                 t0 = time.time()
-                rcc, outc = sh(f"./check {c} {tier}", cwd=VERIF, timeout=7200)
+                rcc, outc = sh(f"./check {c} {tier}", cwd=VERIF, timeout=7200, env={"VERIF_SCRATCH_OUT": "/tmp/verif_seed_out"})
                 viol = [ln for ln in outc.splitlines() if ln.startswith("VIOLATION")]
                 results[c] = {
                     "exit": rcc,
